@@ -204,6 +204,8 @@ struct World {
     be: BTreeMap<String, MockBackend>,
     _dead: Reservation,
     clients: BTreeMap<String, Cl>,
+    /// HTTP/2 backend connections of cluster h, per client
+    h2backs: BTreeMap<String, H2Back>,
     baseline: BTreeMap<String, u64>,
     mon: Mon,
     out: Vec<String>,
@@ -294,7 +296,7 @@ impl World {
             accept_queue_timeout: if cfg.aqt > 0 { Some(cfg.aqt) } else { None },
             request_deadline: Duration::from_secs(6),
             log_file: Some(log_path.clone()),
-            log_level: "error".into(),
+            log_level: std::env::var("FP_LOG_LEVEL").unwrap_or_else(|_| "error".into()),
             ..Default::default()
         })
         .map_err(e("start"))?;
@@ -304,7 +306,7 @@ impl World {
         let tcpn = w.add_tcp_listener().map_err(e("tcp listener 3"))?;
         let tcps = w.add_tcp_listener().map_err(e("tcp listener 4"))?;
         let mut be = BTreeMap::new();
-        for c in ["a", "b", "t", "tn", "td", "n", "ts"] {
+        for c in ["a", "b", "t", "tn", "td", "n", "ts", "h"] {
             be.insert(c.to_string(), MockBackend::listen().map_err(e("backend"))?);
         }
         let dead = dead_addr().map_err(|x| format!("dead addr: {x}"))?;
@@ -315,6 +317,13 @@ impl World {
             }
             w.add_cluster(cl).map_err(e("cluster"))?;
             w.add_http_frontend(http, &format!("{c}.test"), "/", c).map_err(e("frontend"))?;
+        }
+        {
+            let mut cl = cluster("h");
+            cl.http2 = Some(true);
+            w.add_cluster(cl).map_err(e("cluster h"))?;
+            w.add_http_frontend(http, "h.test", "/", "h").map_err(e("frontend h"))?;
+            w.add_backend("h", "h-0", be["h"].addr).map_err(e("backend h"))?;
         }
         w.add_backend("a", "a-0", be["a"].addr).map_err(e("backend a"))?;
         w.add_backend("b", "b-0", be["b"].addr).map_err(e("backend b"))?;
@@ -348,11 +357,12 @@ impl World {
             tcpd,
             tcpn,
             tcps,
-            live: ["a", "b", "t", "ts"].iter().map(|s| s.to_string()).collect(),
+            live: ["a", "b", "t", "ts", "h"].iter().map(|s| s.to_string()).collect(),
             https,
             be,
             _dead: dead,
             clients: BTreeMap::new(),
+            h2backs: BTreeMap::new(),
             baseline: BTreeMap::new(),
             out: vec![],
             oracle: vec![],
@@ -424,6 +434,7 @@ impl World {
         if let Some(cl) = self.clients.remove(key) {
             drop(cl);
         }
+        self.h2backs.remove(key);
         let mut any = false;
         for (cluster, set) in self.mon.holders.iter_mut() {
             if set.remove(key) {
@@ -1729,6 +1740,230 @@ impl World {
     }
 }
 
+// ----------------------------------------------- H2 backend (cluster h) --
+
+/// The server side of one prior-knowledge HTTP/2 connection sozu opened to the
+/// mock backend of cluster `h` (`http2 = true`).
+struct H2Back {
+    conn: RawConn,
+    pos: usize,
+    dec: loona_hpack::Decoder<'static>,
+    greeted: bool,
+    rst: Vec<u32>,
+}
+
+impl H2Back {
+    fn new(conn: RawConn) -> H2Back {
+        H2Back { conn, pos: 0, dec: loona_hpack::Decoder::new(), greeted: false, rst: vec![] }
+    }
+    /// digest frames for up to `d`; `Some((stream, fields))` at the next HEADERS
+    fn next_request(&mut self, d: Duration) -> Option<(u32, Vec<(Vec<u8>, Vec<u8>)>)> {
+        let until = Instant::now() + d;
+        loop {
+            if !self.greeted {
+                if self.conn.received.len() >= 24 {
+                    if &self.conn.received[..24] != H2_PREFACE {
+                        return None;
+                    }
+                    self.pos = 24;
+                    self.greeted = true;
+                    let _ = self.conn.write_all(&h2_frame(4, 0, 0, &[]), T_IO);
+                }
+            } else if self.conn.received.len() >= self.pos + 9 {
+                let h = &self.conn.received[self.pos..self.pos + 9];
+                let l = ((h[0] as usize) << 16) | ((h[1] as usize) << 8) | h[2] as usize;
+                let (ty, flags) = (h[3], h[4]);
+                let sid = u32::from_be_bytes([h[5], h[6], h[7], h[8]]) & 0x7fff_ffff;
+                if self.conn.received.len() >= self.pos + 9 + l {
+                    let payload: Vec<u8> = self.conn.received[self.pos + 9..self.pos + 9 + l].to_vec();
+                    self.pos += 9 + l;
+                    if std::env::var("FP_H2_DEBUG").is_ok() {
+                        eprintln!("backend got frame ty={ty} flags={flags:#x} sid={sid} len={l} payload={}", verif_harness::hex(&payload));
+                    }
+                    match ty {
+                        1 => {
+                            let mut p = &payload[..];
+                            let mut pad = 0usize;
+                            if flags & 0x8 != 0 && !p.is_empty() {
+                                pad = p[0] as usize;
+                                p = &p[1..];
+                            }
+                            if flags & 0x20 != 0 && p.len() >= 5 {
+                                p = &p[5..];
+                            }
+                            let p = &p[..p.len().saturating_sub(pad)];
+                            if let Ok(fields) = self.dec.decode(p) {
+                                return Some((sid, fields));
+                            }
+                            return None;
+                        }
+                        3 => self.rst.push(sid),
+                        4 if flags & 1 == 0 => {
+                            let _ = self.conn.write_all(&h2_frame(4, 1, 0, &[]), T_IO);
+                        }
+                        6 if flags & 1 == 0 => {
+                            let _ = self.conn.write_all(&h2_frame(6, 1, 0, &payload), T_IO);
+                        }
+                        _ => {}
+                    }
+                    continue;
+                }
+            }
+            let left = until.saturating_duration_since(Instant::now());
+            match self.conn.read_some(left.min(Duration::from_millis(5))) {
+                ReadEnd::Closed | ReadEnd::Reset => return None,
+                _ => {}
+            }
+            if Instant::now() >= until {
+                return None;
+            }
+        }
+    }
+    fn respond(&mut self, sid: u32, body_len: usize) {
+        if std::env::var("FP_H2_NOBODY").is_ok() {
+            let _ = self.conn.write_all(&h2_frame(1, 0x5, sid, &[0x88]), T_IO);
+            return;
+        }
+        // :status 200, content-length: <n> (literal without indexing, name index 28)
+        let cl = body_len.to_string();
+        let mut block = vec![0x88, 0x0f, 0x0d, cl.len() as u8];
+        block.extend_from_slice(cl.as_bytes());
+        let mut out = h2_frame(1, 0x4, sid, &block);
+        out.extend(h2_frame(0, 0x1, sid, &vec![b'x'; body_len]));
+        let _ = self.conn.write_all(&out, T_IO);
+    }
+    /// after the client went away: RST_STREAM for `sid`, or the connection ends
+    fn released(&mut self, sid: u32, d: Duration) -> String {
+        let until = Instant::now() + d;
+        loop {
+            if self.rst.contains(&sid) {
+                return "rst".into();
+            }
+            if self.conn.eof || self.conn.error.is_some() {
+                return "closed".into();
+            }
+            if Instant::now() >= until {
+                return "nothing".into();
+            }
+            let _ = self.next_request(Duration::from_millis(20));
+        }
+    }
+}
+
+impl World {
+    /// H1 client `key` → cluster `h`, whose backend speaks HTTP/2
+    fn g_req(&mut self, key: &str, how: &str) -> String {
+        if !self.ensure(key, self.http) {
+            return "connect-failed".into();
+        }
+        let exp = self.expect(key, "h");
+        if !self.clients.contains_key(key) && !self.ensure(key, self.http) {
+            return "connect-failed".into();
+        }
+        let tag = self.next_tag(key);
+        let req = request_bytes("h.test", &tag, "", None);
+        if self.clients.get_mut(key).unwrap().conn.write_all(&req, T_IO).is_err() {
+            self.remove_client(key);
+            return "write-failed".into();
+        }
+        let ctx = format!("H1->H2 {how} {tag}");
+        let mut hb = self.h2backs.remove(key);
+        let mut got: Option<u32> = None;
+        let mut answer: Option<String> = None;
+        let until = Instant::now() + T_IO;
+        while Instant::now() < until {
+            if let Some(b) = hb.as_mut() {
+                if let Some((sid, fields)) = b.next_request(Duration::from_millis(3)) {
+                    if fields.iter().any(|(n, v)| n == b"x-fp" && v == tag.as_bytes()) {
+                        got = Some(sid);
+                        break;
+                    }
+                    self.tag("stray-backend-data");
+                } else if b.conn.eof || b.conn.error.is_some() {
+                    hb = None;
+                }
+            }
+            if hb.is_none() {
+                if let Some(bc) = self.be["h"].try_accept() {
+                    hb = Some(H2Back::new(bc));
+                    continue;
+                }
+            }
+            let cl = self.clients.get_mut(key).unwrap();
+            match cl.conn.read_some(ZERO) {
+                ReadEnd::Done => {
+                    answer = Some(match read_http_message(&mut cl.conn, T_IO) {
+                        Ok(m) => format!("{}", m.status().unwrap_or(0)),
+                        Err(_) => "closed".into(),
+                    });
+                    break;
+                }
+                ReadEnd::Closed | ReadEnd::Reset => {
+                    answer = Some("closed".into());
+                    break;
+                }
+                ReadEnd::Timeout => {}
+            }
+        }
+        let Some(sid) = got else {
+            let o = answer.unwrap_or_else(|| "timeout".into());
+            if let Ok(st) = o.parse::<u16>() {
+                self.note(key, "h", exp, Self::gate_of_status(st), &ctx);
+            } else if o == "timeout" && self.under_admission() {
+                self.alarm(
+                    "request-not-served",
+                    format!("{ctx}: a complete request to cluster h (HTTP/2 backend) got neither a backend stream nor an answer within {T_IO:?}"),
+                );
+            }
+            self.remove_client(key);
+            return o;
+        };
+        self.reached_backend += 1;
+        self.note(key, "h", exp, Gate::Passed, &ctx);
+        let mut b = hb.take().unwrap();
+        match how {
+            "ok" => {
+                b.respond(sid, 7);
+                let cl = self.clients.get_mut(key).unwrap();
+                let o = match read_http_message(&mut cl.conn, T_IO) {
+                    Ok(m) => format!("{}", m.status().unwrap_or(0)),
+                    Err(_) => "no-response".into(),
+                };
+                // One request per connection: a second stream on the re-used backend
+                // connection ends in 502 with this mock (sozu logs "Received Data on idle
+                // stream ..., GOAWAY(PROTOCOL_ERROR)"): reported, not judged here.
+                if std::env::var("FP_H2_KEEP").is_ok() {
+                    self.h2backs.insert(key.to_string(), b);
+                } else {
+                    let _ = b.released(sid, Duration::from_millis(1));
+                    self.remove_client(key);
+                    let _ = b.conn.read_until_closed_or(Duration::from_millis(300));
+                }
+                o
+            }
+            "abort" => {
+                if let Some(cl) = self.clients.remove(key) {
+                    cl.conn.close();
+                }
+                let o = b.released(sid, T_IO);
+                self.remove_client(key);
+                format!("aborted-backend-{o}")
+            }
+            "beclose" => {
+                drop(b);
+                let cl = self.clients.get_mut(key).unwrap();
+                let o = match read_http_message(&mut cl.conn, T_IO + Duration::from_secs(self.cfg.back as u64)) {
+                    Ok(m) => format!("{}", m.status().unwrap_or(0)),
+                    Err(_) => "closed".into(),
+                };
+                self.remove_client(key);
+                o
+            }
+            _ => "bad-op".into(),
+        }
+    }
+}
+
 // ------------------------------------------- limits, storms, the footprint --
 
 impl World {
@@ -1803,6 +2038,7 @@ impl World {
         for k in keys {
             self.remove_client(&k);
         }
+        self.h2backs.clear();
         self.drain_backends();
     }
 
@@ -2313,12 +2549,14 @@ impl World {
         self.mon.dirty = false;
         let mut res = vec![];
         let tn_added = self.backend_op("add", "tn") == "added";
-        for cluster in ["tn", "a", "b", "t", "ts"] {
+        for cluster in ["tn", "a", "b", "t", "ts", "h"] {
             let l = self.limit_of(cluster);
             if l == 0 || l > 4 {
                 continue;
             }
-            let top = if self.cfg.max as u64 >= l + 2 { l } else { l - 1 };
+            // cluster h: the probe's connection ends with its request, so only the
+            // admission of the first `l` is judged there
+            let top = if self.cfg.max as u64 >= l + 2 && cluster != "h" { l } else { l - 1 };
             for i in 0..=top {
                 let key = format!("probe{i}");
                 let exp = if i < l { Exp::Admit } else { Exp::Refuse };
@@ -2328,7 +2566,13 @@ impl World {
                 let until = Instant::now() + Duration::from_secs(2);
                 loop {
                     let before = self.oracle.len();
-                    o = if cluster.starts_with('t') { self.t_open_on(&key, cluster) } else { self.h_get(&key, cluster, false, None) };
+                    o = if cluster.starts_with('t') {
+                        self.t_open_on(&key, cluster)
+                    } else if cluster == "h" {
+                        self.g_req(&key, "ok")
+                    } else {
+                        self.h_get(&key, cluster, false, None)
+                    };
                     let good = if i < l { o == "200" || o == "relayed" } else { o == "429" || o == "closed" };
                     if good || Instant::now() >= until {
                         break;
@@ -2363,6 +2607,10 @@ impl World {
             if o != "200" {
                 return Err(format!("warm-up GET on cluster {c}: {o}"));
             }
+        }
+        let o = self.g_req("warm", "ok");
+        if o != "200" {
+            return Err(format!("warm-up GET on cluster h (HTTP/2 backend): {o}"));
         }
         self.h_end("warm", "close");
         let o = self.t_open("warmt");
@@ -2495,6 +2743,18 @@ impl World {
                 _ => "bad-op".into(),
             },
             "x" => self.x_h2(arg(1), num(2)),
+            "g" => {
+                let key = format!("h{}", arg(2));
+                let n = num(3).max(1);
+                let mut o = vec![];
+                for _ in 0..n {
+                    o.push(self.g_req(&key, arg(1)));
+                    if arg(1) != "ok" || o.last().map(|s| s != "200").unwrap_or(true) {
+                        break;
+                    }
+                }
+                o.join(",")
+            }
             "limit" => self.set_limit(num(1) as u64),
             "backend" => self.backend_op(arg(1), arg(2)),
             "storm" => self.storm(arg(1), num(2), num(3), false),
@@ -2608,9 +2868,9 @@ fn run_case_inner(ops: &[String]) -> CaseRun {
     for (i, op) in ops.iter().enumerate().skip(1) {
         let o = w.run_op(op, &op_bytes(op, i));
         let kind: Vec<&str> = op.split_whitespace().take(2).collect();
-        let kind = if matches!(kind.first().copied(), Some("h" | "t" | "s" | "x")) { kind.join(" ") } else { kind[..1].join(" ") };
+        let kind = if matches!(kind.first().copied(), Some("h" | "t" | "s" | "x" | "g")) { kind.join(" ") } else { kind[..1].join(" ") };
         w.tags.push(format!("op:{kind}"));
-        if matches!(op.split_whitespace().next(), Some("h" | "t" | "s" | "x")) {
+        if matches!(op.split_whitespace().next(), Some("h" | "t" | "s" | "x" | "g")) {
             let word = o.split(|c| c == ',' || c == ':').next().unwrap_or("").to_string();
             w.tags.push(format!("{kind} => {word}"));
         }
@@ -2640,7 +2900,9 @@ fn run_case_inner(ops: &[String]) -> CaseRun {
     if rep.outcome != StopOutcome::Clean && !w.oracle.iter().any(|(c, _)| c == "worker-dead-or-wedged") {
         w.alarm("worker-dead-or-wedged", format!("stop: {:?}", rep.outcome));
     }
-    let _ = std::fs::remove_file(&w.log_path);
+    if std::env::var("FP_KEEP_LOG").is_err() {
+        let _ = std::fs::remove_file(&w.log_path);
+    }
     if let Some(why) = w.murky.take() {
         // our own peers could not connect: whatever was observed proves nothing
         let dropped: Vec<String> = w.oracle.drain(..).map(|(c, _)| c).collect();
@@ -2711,6 +2973,9 @@ fn gen_mix_atom(rng: &mut Rng, tls: bool, slow_left: &mut u32, open: &mut GenOpe
         ("h", "get" | "post", Some(c)) => {
             open.h.insert(c);
         }
+        ("g", _, Some(c)) => {
+            open.h.remove(&c);
+        }
         ("h", _, Some(c)) => {
             open.h.remove(&c);
         }
@@ -2733,12 +2998,17 @@ fn gen_mix_atom_raw(rng: &mut Rng, tls: bool, slow_left: &mut u32, open: &GenOpe
         &[
             ("get", 15), ("getclose", 5), ("post", 5), ("abortwait", 6), ("abortmid", 6), ("beclose", 4),
             ("bereset", 2), ("bepartial", 4), ("upgrade", 6), ("dead", 3), ("nobackend", 3), ("nohost", 3),
-            ("bad", 3), ("partial-close", 3), ("partial-reset", 2), ("connect-close", 2), ("hend", 8),
+            ("bad", 3), ("h2back", 6), ("partial-close", 3), ("partial-reset", 2), ("connect-close", 2), ("hend", 8),
             ("topen", 6), ("tping", 3), ("tend", 8), ("tdead", 2), ("tls", if tls { 14 } else { 0 }), ("slow", 9),
         ],
     );
     match kind {
         "get" => format!("h get {c} {cl} {}", rng.range(1, 3)),
+        "h2back" => match rng.below(4) {
+            0 | 1 => format!("g ok {c} 1"),
+            2 => format!("g abort {c}"),
+            _ => format!("g beclose {c}"),
+        },
         "getclose" => format!("h getclose {c} {cl}"),
         "post" => format!("h post {c} {cl} {}", *rng.pick(&[10usize, 3000, 20000, 70000])),
         "abortwait" => format!("h abortwait-{} {c} {cl}", rng.pick(&["close", "reset"])),
@@ -2877,7 +3147,7 @@ fn gen_case(rng: &mut Rng, thorough: bool) -> Vec<String> {
                 &[
                     ("get", 40), ("hend", 15), ("limit", 10), ("topen", 10), ("tclose", 6), ("upgrade", 3),
                     ("abort", 4), ("default", 4), ("tls", if cfg.tls { 4 } else { 0 }), ("getclose", 4), ("check", 2),
-                    ("nb", 7),
+                    ("nb", 7), ("h2back", 5),
                 ],
             );
             match kind {
@@ -2918,6 +3188,10 @@ fn gen_case(rng: &mut Rng, thorough: bool) -> Vec<String> {
                     _ => format!("x {} {}", rng.pick(&["ok", "ok", "abort", "rst"]), rng.range(1, 4)),
                 }),
                 "getclose" => ops.push(format!("h getclose {c} {cl}")),
+                "h2back" => ops.push(match rng.below(3) {
+                    0 | 1 => format!("g ok {c} 1"),
+                    _ => format!("g abort {c}"),
+                }),
                 // clusters whose backend comes and goes
                 "nb" => ops.push(match rng.below(8) {
                     0 | 1 => format!("t open {c} tn"),
@@ -3019,7 +3293,7 @@ fn corpus() -> Vec<Vec<String>> {
             "h upgrade-client 0 a", "h upgrade-backend 1 b", "h dead 0", "h nobackend 1", "h nohost 2", "h bad 3",
             "h partial-close 0", "h partial-reset 1", "h connect-close 2", "t open 0", "t ping 0", "t shutwr-client 0",
             "t open 1", "t shutwr-backend 1", "t open 2", "t reset-backend 2", "t open 3", "t reset-client 3", "t dead 0",
-            "s ok", "s abort", "s hsonly", "s close", "x ok 3", "x abort 2", "x rst 3", "x beclose 2", "x goaway 2",
+            "s ok", "s abort", "s hsonly", "s close", "x ok 3", "x abort 2", "x rst 3", "x beclose 2", "x goaway 2", "g ok 0 1", "g ok 1 1", "g abort 1", "g beclose 0",
             "check", "x bestall 2", "x idle 1", "h bestall 0 a", "h idle 1", "h partial-idle 2",
             "t idle 0", "s idle", "s garbage", "s hello-cut"]),
         // keep-alive connection left idle: front_timeout reclaims it, zombie checker on
